@@ -41,6 +41,9 @@ SURROUND = [
     # definitions with the target's name INSIDE a coroutine / an except handler that precede the target (other scopes, must be left alone)
     ["async def fetch(a):\n    class ConfigClass(object):\n        z: int = 0\n\n    def set_cli_args(p):\n        return p\n\n    train = a\n    return ConfigClass",
      "try:\n    import os\nexcept ImportError as err:\n    ConfigClass = None"],
+    # the usual optional-dependency fallback: the name is also defined inside an except handler (no `as`), before the target
+    ["try:\n    from fast import ConfigClass, set_cli_args, train\nexcept ImportError:\n    class ConfigClass(object):\n        z: int = 0\n\n"
+     "    def set_cli_args(p):\n        return p\n\n    def train(x):\n        return x", "Y = 3"],
 ]
 
 
